@@ -86,6 +86,12 @@ func (m MetavarMatcher) Match(got reflect.Value, d data.Data, r Region) (data.Da
 		return d, false
 	}
 
+	// The type alone does not make an identifier: the label that a bare
+	// "break" or "continue" does not have is a nil *ast.Ident.
+	if got.Kind() == reflect.Ptr && got.IsNil() {
+		return d, false
+	}
+
 	key := metavarKey(m.Name)
 
 	var md metavarData
